@@ -202,10 +202,21 @@ def radio_cases(rng, tier):
                         if 'selector' in vals: vals['selector'] = sel
                         vals['sync'] = sync; vals['comm'] = (timeout << 14) | sub
                         out.append(M(gen.pack(gen.bits_of(fl, vals))))
-        for _ in range(scale(tier, 1500, 40000)):
+        for _ in range(scale(tier, 1500, 4000)):
             vals = gen.rand_values(rng, fl, 'random'); vals['type'] = t
             out.append(M(gen.pack(gen.bits_of(fl, vals))))
-    return with_truncations(rng, out)
+        if tier != 'quick':
+            # exhaustive: every 19-bit communication state (with each selector value), the other
+            # fields re-drawn every 4096 states; the state occupies the last 19 bits of the 168
+            for sel in ((0, 1) if t in (9, 18) else (0,)):
+                for hi in range(0, 1 << 19, 4096):
+                    vals = gen.rand_values(rng, fl, 'random'); vals['type'] = t
+                    if 'selector' in vals: vals['selector'] = sel
+                    vals['sync'] = 0; vals['comm'] = 0
+                    base = int(gen.bits_of(fl, vals), 2)
+                    for lo in range(4096):
+                        out.append('M ' + format(base | hi | lo, '042x'))
+    return with_truncations(rng, out) if tier == 'quick' else out
 
 def coord_cases(rng, tier):
     out = []
@@ -282,6 +293,9 @@ def unarmor_cases(rng, tier):
             out.append(U(fill, bytes([48] * n)))
             out.append(U(fill, bytes(rng.choice(A) for _ in range(n))))
     if tier != 'quick':
+        for a in range(256):          # every pair of bytes
+            for b in range(256):
+                out.append(U((a + b) % 6, bytes([a, b])))
         small = [48, 49, 87, 96, 119, 47, 88, 120]
         for n in (3, 4, 5):
             for s in itertools.product(small, repeat=n):
@@ -320,6 +334,14 @@ def sentence_field_cases(rng, tier):
     for v in (256, 257, 300, 999, 1000, 65535, 65536, 4294967296):
         add(gen.sentence(pay, fill, n=v), 0); add(gen.sentence(pay, fill, k=v), 0); add(gen.sentence(pay, fill, sid=v), 0)
         add(gen.sentence(pay, v), 0)
+    # long digit strings in every decimal field: zero padding, embedded non-zero digits, overflow
+    digit_strings = [b'01001', b'010000', b'090255', b'00100002', b'0000256', b'000001', b'0999', b'00300', b'1000',
+                     b'100000001', b'0000000000000000000001', b'00000000000000000000256', b'4294967297', b'0255', b'00255', b'1255', b'0256']
+    digit_strings += [bytes(rng.choice(b'0000012359') for _ in range(rng.randrange(4, 10))) for _ in range(40)]
+    for ds in digit_strings:
+        add(gen.sentence(pay, fill, n=ds, k=b'1'), 0); add(gen.sentence(pay, fill, n=b'9', k=ds), 0)
+        add(gen.sentence(pay, fill, sid=ds), 0); add(gen.sentence(pay, ds), 0)
+        add(gen.sentence(pay, fill, n=ds, k=ds), 0)
     for c in range(256):
         if c == 44: continue
         add(gen.sentence(pay, fill, chan=bytes([c])), 0)
@@ -427,6 +449,9 @@ def checksum_cases(rng, tier):
         for v in range(256):
             for fmt in ((b'%02X',) if v % 7 else (b'%02X', b'%02x', b'%X', b'%04X')):
                 hist(priors[v % 3], s[:star + 1] + fmt % v)
+            if v % 5 == 0:      # long digit runs: only the first eight digits are read
+                for fmt in (b'%08X', b'1%08X', b'%09X', b'F0%08X', b'%07X', b'%012X', b'1000%08x'):
+                    hist(priors[v % 3], s[:star + 1] + fmt % v)
     base = [gen.valid_sentence(rng) for _ in range(scale(tier, 60, 800))] + [f2]
     for s in base:
         for i in range(len(s)):
@@ -446,6 +471,8 @@ def history_alphabet():
         for n, k in ((2, 1), (2, 2), (3, 1), (3, 2), (3, 3), (2, 3), (3, 0), (2, 0)):
             if sid == 2 and (n, k) in ((2, 3), (3, 0), (2, 0)): continue
             syms.append(gen.sentence(bytes([gen.ALPHABET[1 + i % 60]]), 0, n, k, sid)); i += 1
+    syms.append(gen.sentence(b'7', 3, 2, 1, 1))                  # first fragment carrying fill bits
+    syms.append(gen.sentence(b'8', 5, 3, 2, 1))                  # middle fragment carrying fill bits
     syms.append(gen.sentence(b'15M', 0))                         # unfragmented
     syms.append(gen.sentence(b'15M', 0, cs=b'00'))               # bad checksum
     syms.append(b'garbage')                                      # bad form
@@ -526,7 +553,10 @@ def reassembly_cases(rng, tier):
         for fr in frs:
             while rng.random() < 0.3:   # transparent lines between the fragments
                 x = rng.choice([gen.valid_sentence(rng), b'junk', gen.valid_sentence(rng)[:-2] + b'zz',
-                                gen.sentence(b'9', 0, n + 1, n + 1, sid), gen.sentence(b'9', 0, 3, 2, 77)])
+                                gen.sentence(b'9', 0, n + 1, n + 1, sid), gen.sentence(b'9', 0, 3, 2, 77),
+                                # unfragmented sentences that do not decode: unsupported type, too short, bad character
+                                gen.sentence(bytes([gen.armor_char(rng.choice([0, 22, 23, 25, 26, 28, 63]))]) + bytes(rng.choice(gen.ALPHABET) for _ in range(27)), 0),
+                                gen.sentence(b'1', 0), gen.sentence(b'1x5', 0)])
                 out.append(C(0, rng.randrange(2), x))
             out.append(C(0, d, fr))
         out.append(C(0, d, gen.sentence(pay, fill)))     # the same payload unfragmented
